@@ -126,6 +126,8 @@ def run(case):
     form = case["form"]
     # the bin shape as a tuple, a list, an ndarray, or a tuple of numpy integers (when all entries are integers)
     arg = [tuple, list, np.array, lambda b: tuple(np.int64(x) if float(x).is_integer() else x for x in b)][case["wseed"] % 4](bins)
+    if case["wseed"] % 4 == 2 and form == "float":
+        arg = np.array(bins, dtype=float)           # (a float64 array: what an in-place rounding would write into)
     if form == "quantity":
         arg = np.array(bins) * u.pix
         if case["wseed"] % 3 == 1:
@@ -150,12 +152,17 @@ def run(case):
                             "ignoresMask": case["ignores"], "handleMask": case["handle"]}
     else:
         res["model_req"] = None
+    frozen_arg = C.freeze(arg)
     try:
         out, err = cube.rebin(arg, **kwargs), None
     except Exception as e:
         out, err = None, err_kind(e)
+    arg_edited = C.freeze(arg) != frozen_arg      # (successful or refused: the caller's bin shape is not to be edited)
     res["impl"] = {"err": err}
     tags.append("outcome=" + (err or "ok"))
+    if arg_edited:
+        res["oracle"] = f"rebin edited the bin shape the caller passed in (now {arg!r})"
+        return res
     ib = [int(np.rint(b)) for b in bins]
     if form == "badunit":
         if err != "UnitsError":
